@@ -103,10 +103,96 @@ pub fn shard_case(kind: crate::trk::Kind) -> impl Strategy<Value = ShardCase> {
         .prop_map(|(h, shards, voting_shards, choices, delays, controlled, stall)| ShardCase { h, shards, voting_shards, choices, delays, controlled, stall })
 }
 
+
+// ---------------------------------------------------------------------------------------------
+// arrival order at the voting engine
+
+/// The workers' partial results reach the voting engine in whatever order they finish. For a
+/// weight table whose best assignment is unique by a margin the winners are the same for every
+/// arrival order (and are that assignment). The margins concentrate in the decades above the
+/// engine's weight resolution (1e-6): 2e-4 .. 5e-2.
+#[derive(Clone, Debug, Serialize, Deserialize)]
+pub struct VoteCase {
+    pub t: f32,
+    pub dets: usize,
+    pub tracks: usize,
+    pub w: Vec<Option<f32>>,
+    pub order_a: Vec<u32>,
+    pub order_b: Vec<u32>,
+    pub big_ids: bool,
+}
+
+pub fn vote_case() -> impl Strategy<Value = VoteCase> {
+    (2usize..=4, 2usize..=4, 0.05f32..0.5, any::<bool>(), (2e-4f32.ln()..5e-2f32.ln()).prop_map(|x: f32| x.exp())).prop_flat_map(|(dets, tracks, t, big_ids, delta)| {
+        (
+            proptest::collection::vec(prop_oneof![1 => Just(None), 6 => (0.0f32..1.0).prop_map(Some)], dets * tracks),
+            proptest::collection::vec(any::<u32>(), dets * tracks),
+            proptest::collection::vec(any::<u32>(), dets * tracks),
+        )
+            .prop_map(move |(mut w, order_a, order_b)| {
+                // a contest between the first two detections for the first two tracks that is
+                // decided by `delta`: w00 + w11 = w01 + w10 + delta
+                let cell = |i: usize, j: usize| i * tracks + j;
+                let (w00, w11, w01) = (0.55 + w[cell(0, 0)].unwrap_or(0.2) * 0.4, 0.55 + w[cell(1, 1)].unwrap_or(0.3) * 0.4, 0.5 + w[cell(0, 1)].unwrap_or(0.1) * 0.3);
+                w[cell(0, 0)] = Some(w00);
+                w[cell(1, 1)] = Some(w11);
+                w[cell(0, 1)] = Some(w01);
+                w[cell(1, 0)] = Some(w00 + w11 - w01 - delta);
+                VoteCase { t, dets, tracks, w, order_a, order_b, big_ids }
+            })
+    })
+}
+
+pub fn check_vote(c: &VoteCase) -> CaseResult {
+    use crate::oracle::assign;
+    use similari::track::ObservationMetricOk;
+    use similari::trackers::sort::voting::SortVoting;
+    use similari::utils::bbox::Universal2DBox;
+    use similari::voting::Voting;
+    let det_id = |i: usize| if c.big_ids { mix(0xD37, i as u64) | 1 } else { 10 + i as u64 };
+    let trk_id = |j: usize| if c.big_ids { mix(0x7AC, j as u64) | 1 } else { 100 + j as u64 };
+    let run = |order: &Vec<u32>| -> std::collections::BTreeMap<u64, Vec<u64>> {
+        let mut stream = vec![];
+        for i in 0..c.dets {
+            for j in 0..c.tracks {
+                if let Some(w) = c.w[i * c.tracks + j] {
+                    stream.push((order.get(i * c.tracks + j).copied().unwrap_or(0), i, j, w));
+                }
+            }
+        }
+        stream.sort_by_key(|x| x.0);
+        let items: Vec<ObservationMetricOk<Universal2DBox>> = stream.iter().map(|&(_, i, j, w)| ObservationMetricOk::new(det_id(i), trk_id(j), Some(w), None)).collect();
+        let ntracks = (0..c.tracks).filter(|&j| (0..c.dets).any(|i| c.w[i * c.tracks + j].is_some())).count();
+        SortVoting::new(c.t, c.dets, ntracks).winners(items).into_iter().collect()
+    };
+    let w64: Vec<Vec<Option<f64>>> = (0..c.dets).map(|i| (0..c.tracks).map(|j| c.w[i * c.tracks + j].map(|x| x as f64)).collect()).collect();
+    let (opt, opt_assign) = assign::solve(&w64, c.t as f64);
+    let margin = opt - assign::runner_up(&w64, c.t as f64, &opt_assign);
+    // pairs below the threshold never count: a runner-up that only differs by such a pair is the
+    // same outcome; keep to tables where the margin is real and clear of the engine's resolution
+    if margin < 1.5e-4 {
+        return Ok(CaseOk::trivial().label("margin_below_1.5e-4"));
+    }
+    let (a, b) = (run(&c.order_a), run(&c.order_b));
+    ensure!(a == b, "voting-arrival-order", "the winners depend on the order in which the distances arrive although the best assignment is unique by {:.2e}: {:?} vs {:?}", margin, a, b);
+    for (i, want) in opt_assign.iter().enumerate() {
+        let expect = match want {
+            Some(j) if w64[i][*j].unwrap() >= c.t as f64 => trk_id(*j),
+            _ => det_id(i),
+        };
+        if (0..c.tracks).any(|j| c.w[i * c.tracks + j].is_some()) {
+            ensure!(a.get(&det_id(i)) == Some(&vec![expect]), "voting-not-the-unique-optimum", "detection {} gets {:?}, the assignment that is best by {:.2e} gives it {}", i, a.get(&det_id(i)), margin, expect);
+        }
+    }
+    Ok(CaseOk::new(c.order_a != c.order_b).label_if(margin < 1e-3, "margin_below_1e-3").label_if(margin >= 1e-3 && margin < 1e-2, "margin_1e-3_to_1e-2"))
+}
+
 pub fn run(env: &Env, rep: &Report) {
     MAX_SHRINK_ITERS.store(200, std::sync::atomic::Ordering::Relaxed);
-    rep.set_rule("tie-free multi-object histories (no duplicate detections, distinct appearance per detection; predict plus skip / wasted / idle calls) x shard count 1..8 (voting shards 1..4) x a plan for every predict call that totally orders the Distances commands of all shard workers (FIFO per shard, interleaving chosen by the case) through gates on the command begin/end schedule points, plus delays. Oracle: records of the controlled run = records of the reference run (1 shard, free schedule), including track ids for Sort / VisualSort, up to id renaming for the batch trackers; wasted and idle sets equal; comparison cut at the first call whose decision margin (f64 shadow) is below 1e-4. Non-trivial: >= 2 shards, calls with >= 2 detections and >= 2 continuations, and at least one achieved plan whose order differs from the shard-by-shard default; distinct = distinct serialized case");
+    rep.set_rule("tie-free multi-object histories (no duplicate detections, distinct appearance per detection; predict plus skip / wasted / idle calls) x shard count 1..8 (voting shards 1..4) x a plan for every predict call that totally orders the Distances commands of all shard workers (FIFO per shard, interleaving chosen by the case) through gates on the command begin/end schedule points, plus delays. Oracle: records of the controlled run = records of the reference run (1 shard, free schedule), including track ids for Sort / VisualSort, up to id renaming for the batch trackers; wasted and idle sets equal; comparison cut at the first call whose decision margin (f64 shadow) is below 1e-4. Non-trivial: >= 2 shards, calls with >= 2 detections and >= 2 continuations, and at least one achieved plan whose order differs from the shard-by-shard default; distinct = distinct serialized case. Sub-check voting-order: weight tables with a contest decided by 2e-4 .. 5e-2 delivered to the Hungarian voting engine in two arrival orders (non-trivial: the two orders differ and the exact margin is at least 1.5e-4)");
     rep.assume("schedules are forced at command granularity through the cfg(similari_verif) schedule points; gate waits are bounded (200 ms) and an expired wait only costs coverage (counted as plan_deviation)");
+    par_generated(rep, "voting-order", vote_case, env.tier.pick(200_000, 4_000_000), workers(), check_vote);
+    rep.note("voting-order", "weight tables (2..4 x 2..4) with a contest decided by 2e-4 .. 5e-2, delivered to the Hungarian voting engine in two arrival orders: same winners, equal to the unique optimum (margin >= 1.5e-4, computed exactly)".into());
     let pool = IsoPool::new(&env.prop, "shards", std::time::Duration::from_secs(180));
     let n = env.tier.pick(4_000, 40_000);
     for kind in KINDS {
@@ -117,6 +203,7 @@ pub fn run(env: &Env, rep: &Report) {
 pub fn replay(sub: &str, case: Value) -> Option<CaseResult> {
     match sub {
         "shards" => Some(replay_case(case, check_shards, sub)),
+        "voting-order" => Some(replay_case(case, check_vote, sub)),
         _ => None,
     }
 }
